@@ -5,7 +5,7 @@
    arithmetic is exact where it matters).  Fractional indices are exact fractions num/den.
    The path "no bounds variable + method='bounds'" halves differences; the model works in
    HALF units there (everything multiplied by 2), see [derive_edges].  No proofs here. *)
-From PNC Require Import Base.Util.
+From PNC Require Import Base.Util Gen.Val2idxSrc.
 Local Open Scope Z_scope.
 
 Inductive method := MNearest | MBounds | MExact | MOther.
@@ -144,7 +144,28 @@ Definition fidx_one (m : method) (lnan rnan dsc : bool) (dv de : list Z) (x : Z)
 Definition cell_one (m : method) (cm : cmode) (lnan rnan dsc : bool) (dv de : list Z) (x : Z) : cell :=
   to_cell m cm (memZ x dv) (fidx_one m lnan rnan dsc dv de x).
 
-Definition impl_val2idx (c : cfg) (xs : list Z) : outcome :=
+(* Variant of the bounds path with fixes/C16-val2idx-bounds-exact-cell.patch: inside the domain
+   the cell is located by comparing with the edges,
+     j = clip(searchsorted(dimevals, val, side='right'), 1, size - 1); min(cidx[j-1], cidx[j]),
+   the interpolated value only supplies the fills outside.  brk = j - 1. *)
+Fixpoint brk (x : Z) (xp : list Z) (k : Z) : Z :=
+  match xp with
+  | _ :: ((x1 :: (_ :: _)) as t) => if x <? x1 then k else brk x t (k + 1)
+  | _ => k
+  end.
+Definition fidx_srch (m : method) (lnan rnan dsc : bool) (dv de : list Z) (x : Z) : fval :=
+  let xp := if dsc then rev de else de in
+  let idx1 := map (Z.min (lenZ dv - 1)) (zseq 0 (length de)) in
+  let idx := if dsc then rev idx1 else idx1 in
+  if is_bounds m && ((hd 0 xp <=? x) && (x <=? last xp 0))
+  then let i := brk x xp 0 in FNum (Z.min (nthZ idx i) (nthZ idx (i + 1))) 1
+  else fidx_one m lnan rnan dsc dv de x.
+(* bs = which of the two the source does (Gen.Val2idxSrc.bounds_by_search, regenerated from the
+   source on every run) *)
+Definition cell_gen (bs : bool) (m : method) (cm : cmode) (lnan rnan dsc : bool) (dv de : list Z) (x : Z) : cell :=
+  to_cell m cm (memZ x dv) (if bs then fidx_srch m lnan rnan dsc dv de x else fidx_one m lnan rnan dsc dv de x).
+
+Definition impl_val2idx_gen (bs : bool) (c : cfg) (xs : list Z) : outcome :=
   if bad_opts c then Raised ENotImpl else
   match prep c with
   | inl e => Raised e
@@ -152,7 +173,7 @@ Definition impl_val2idx (c : cfg) (xs : list Z) : outcome :=
       let d := diffs de in
       let run (dsc : bool) :=
         let xs' := map (Z.mul s) xs in
-        let cells := map (cell_one (c_m c) (c_c c) (c_lnan c) (c_rnan c) dsc dv de) xs' in
+        let cells := map (cell_gen bs (c_m c) (c_c c) (c_lnan c) (c_rnan c) dsc dv de) xs' in
         (* isleft / isright use the (reversed, hence ascending) dimevals *)
         let out := existsb (is_out (if dsc then rev de else de)) xs' in
         match c_b c with
@@ -162,6 +183,7 @@ Definition impl_val2idx (c : cfg) (xs : list Z) : outcome :=
         end in
       if all_neg d then run true else if all_pos d then run false else Raised ENotMono
   end.
+Definition impl_val2idx := impl_val2idx_gen bounds_by_search.
 
 (* ---- specification side ------------------------------------------------------------ *)
 Definition valid_idx (n : nat) (i : Z) : bool := (0 <=? i) && (i <? Z.of_nat n).
